@@ -43,6 +43,13 @@ ct_bases = z3.Function('ct_bases', Ty, so.TySeq)        # T.__bases__
 hook_recog_ok = z3.Function('hook_recog_ok', Ty, so.YNode, B)
 hook_recog_msg = z3.Function('hook_recog_msg', Ty, so.YNode, S)
 hook_recog_hasmsg = z3.Function('hook_recog_hasmsg', Ty, so.YNode, B)
+# PyYAML's SafeConstructor scalar constructors (E-CONSTRUCT): domain + value
+yaml_int_dom = z3.Function('sp_yaml_int_dom', S, B)
+yaml_int = z3.Function('sp_yaml_int', S, I)
+yaml_float_dom = z3.Function('sp_yaml_float_dom', S, B)
+yaml_float = z3.Function('sp_yaml_float', S, so.Fl)
+yaml_bool_dom = z3.Function('sp_yaml_bool_dom', S, B)
+yaml_bool = z3.Function('sp_yaml_bool', S, B)
 enum_has = z3.Function('ct_enum_has', Ty, S, B)           # name in Enum class
 hook_new_ok = z3.Function('hook_new_ok', Ty, S, B)        # T(s) does not raise
 hook_sav_ok = z3.Function('hook_sav_ok', Ty, so.YNode, B)
@@ -284,7 +291,8 @@ SPECB = ('tyset_empty', 'tyset_of', 'in_set', 'card0', 'card1', 'cardmany',
          'E', 'err_msg', 'err_causes', 'image_list', 'reg_len', 'set_remove',
          'image_dict_key', 'image_dict_val', 'dashed', 'is_base_of', 'wf_ty', 'forall_in', 'sav_trace', 'empty_tys', 'prefix_of', 'document_type',
          'composed_document', 'yielded', 'is_enum_member', 'is_obj_of',
-         'enum_has', 'new_ok')
+         'enum_has', 'new_ok', 'yaml_int_dom', 'yaml_float_dom',
+         'yaml_bool_dom', 'yaml_int', 'yaml_float', 'yaml_bool')
 
 
 ct_subclass = z3.Function('ct_subclass', Ty, Ty, B)       # issubclass(a, b)
@@ -323,6 +331,10 @@ class TypesPlugin:
 
     # ---------------------------------------------------------- attributes
     def value_attr(self, eng, v, name, st):
+        if isinstance(v, VPyObj) and v.what == 'safe_constructor' and \
+                name in ('construct_yaml_int', 'construct_yaml_float',
+                         'construct_yaml_bool'):
+            return [(st, VExtMethod(v, name))]
         if isinstance(v, VSuper) and name in ('get_single_node', 'get_node'):
             return [(st, VExtMethod(v, name))]
         if isinstance(v, VSelfType) and name == 'document_type':
@@ -403,6 +415,30 @@ class TypesPlugin:
     def call_method(self, eng, recv, name, args, kwargs, st, node):
         if isinstance(recv, VObj) and name == 'resolve':
             return self.call_method_resolve(eng, args, st)
+        if isinstance(recv, VPyObj) and recv.what == 'safe_constructor':
+            eng.assume_note('E-CONSTRUCT: SafeConstructor.construct_yaml_int/'
+                            'float/bool as uninterpreted (domain, value); '
+                            'ValueError / KeyError outside the domain')
+            n = eng.node_term(args[0], st)
+            line = getattr(node, 'lineno', 0)
+            if not st.entails(so.n_kind(n) == so.K_SCALAR):
+                raise Unsupported('scalar constructor on a possibly '
+                                  'non-scalar node', node)
+            val = so.n_val(n)
+            dom, fun, wrapv, exc = {
+                'construct_yaml_int': (yaml_int_dom, yaml_int, VInt,
+                                       'ValueError'),
+                'construct_yaml_float': (yaml_float_dom, yaml_float, VFloat,
+                                         'ValueError'),
+                'construct_yaml_bool': (yaml_bool_dom, yaml_bool, VBool,
+                                        'KeyError')}[name]
+            out = []
+            for s2, good in eng.branch(st, dom(val)):
+                if good:
+                    out.append((s2, wrapv(fun(val))))
+                else:
+                    out.append((s2, Raise(VExc(exc, (), line))))
+            return out
         if isinstance(recv, VSuper) and name in ('get_single_node',
                                                  'get_node'):
             eng.assume_note('E-COMPOSE: PyYAML parse+compose yields YAMLError, '
@@ -512,6 +548,8 @@ class TypesPlugin:
             return [(st, VEmptySet())]
         if name == 'super' and not args:
             return [(st, VSuper())]
+        if name == 'yaml.constructor.SafeConstructor' and not args:
+            return [(st, VPyObj('safe_constructor'))]
         if name == 'pathlib.Path' and len(args) == 1:
             a = args[0]
             if isinstance(a, VNodeValue):
@@ -754,6 +792,16 @@ class TypesPlugin:
                 'tag:yaml.org,2002:null'), z3.StringVal(''), so.EMPTY_NODES,
                 so.EMPTY_PAIRS, so.GEN_MARK, so.GEN_MARK)
             return VNodeVal(z3.If(COMPOSED_NONE, empty, COMPOSED))
+        if name in ('yaml_int_dom', 'yaml_float_dom', 'yaml_bool_dom'):
+            f = {'yaml_int_dom': yaml_int_dom, 'yaml_float_dom':
+                 yaml_float_dom, 'yaml_bool_dom': yaml_bool_dom}[name]
+            return VBool(f(args[0].t))
+        if name == 'yaml_int':
+            return VInt(yaml_int(args[0].t))
+        if name == 'yaml_float':
+            return VFloat(yaml_float(args[0].t))
+        if name == 'yaml_bool':
+            return VBool(yaml_bool(args[0].t))
         if name == 'yielded':
             ys = [n[1] for n in st.notes if isinstance(n, tuple)
                   and n and n[0] == 'yield']
